@@ -80,6 +80,7 @@ def check(prop, tier):
     t0 = time.time()
     seed = int(os.environ.get("VERIF_SEED", "0") or 0)
     load_contracts()
+    os.environ["TVC_TIER"] = tier      # inherited by the unit workers: the thorough tier adds the concrete cross-check of every clause
     from tvc import standins
 
     names = [n for n, ud in UNITS.items() if prop in ud.props]
@@ -105,6 +106,7 @@ def check(prop, tier):
     used_ops = set()
     canaries_ok = canaries_bad = 0
     obl_list = []
+    CROSS[0] = sum(r.get("crosschecked", 0) for r in results)
     for r in results:
         for e in r["errors"]:
             errors.append(f"{r['unit']}: {e[0]}: {e[1]}")
@@ -243,6 +245,9 @@ DROPPED = ["docstrings", "comments", "type annotations", "log.* calls", "render(
            "integer width (int tensors are mathematical integers, A2)"]
 
 
+CROSS = [0]   # clauses re-examined on small concrete instances by the thorough tier (sum over units)
+
+
 def make_evidence(prop, tier, seed, n_obl, n_dis, by_backend, solver_time, samples, functions, assumptions, used_ops,
                   canaries_ok, st_results, known_lines, nviol, unknowns, errors, wall, unit_names):
     from tvc import props as P
@@ -262,6 +267,7 @@ def make_evidence(prop, tier, seed, n_obl, n_dis, by_backend, solver_time, sampl
         "units": unit_names,
         "dropped_by_ingestion": DROPPED,
         "canaries_refuted": canaries_ok,
+        "thorough_crosschecked_clauses": CROSS[0],
         "bounded_standins": [{"name": s["name"], "bound": s.get("bound"), "cases": s.get("cases"), "violations": len(s.get("violations", []))} for s in st_results],
         "known_findings_reported": known_lines,
         "undecided": unknowns, "errors": errors[:20],
